@@ -87,6 +87,13 @@ func c33GenName(t *rapid.T) []byte {
 	case 10: // pseudo-header
 		return []byte([]string{":method", ":path", ":status", ":authority", ":scheme", ":x", ":Method"}[c33Pick(t, "pseudo", 7)])
 	case 11: // non-ASCII
+		if c33Pick(t, "unicodeFold", 3) == 0 {
+			// runes that Unicode case mapping turns into ASCII letters (U+212A KELVIN SIGN,
+			// U+0130) or that ASCII upper-casing produces (U+017F, U+0131)
+			s := c33Tokens[c33Pick(t, "tokenN", len(c33Tokens))]
+			k := c33Pick(t, "nonasciiAt", len(s)+1)
+			return []byte(s[:k] + []string{"\u212a", "\u0130", "\u017f", "\u0131", "\u00c9"}[c33Pick(t, "foldRune", 5)] + s[k:])
+		}
 		s := []byte(c33Tokens[c33Pick(t, "tokenN", len(c33Tokens))])
 		s[c33Pick(t, "nonasciiAt", len(s))] = 0x80 | rapid.Byte().Draw(t, "hi")
 		return s
@@ -122,7 +129,20 @@ func c33GenValue(t *rapid.T, name []byte) []byte {
 			}
 		}
 		if len(vs) > 0 {
-			return []byte(vs[c33Pick(t, "staticVal", len(vs))])
+			v := []byte(vs[c33Pick(t, "staticVal", len(vs))])
+			if len(v) > 0 && c33Pick(t, "otherCase", 4) == 0 {
+				// a near miss of the static entry: same value in another letter case
+				switch c33Pick(t, "caseKind", 3) {
+				case 0:
+					v = []byte(strings.ToUpper(string(v)))
+				case 1:
+					v = []byte(strings.ToLower(string(v)))
+				default:
+					k := c33Pick(t, "caseAt", len(v))
+					v[k] = c33SwapCase(v[k])
+				}
+			}
+			return v
 		}
 		return []byte("v")
 	case 3:
@@ -149,6 +169,16 @@ func c33GenValue(t *rapid.T, name []byte) []byte {
 	default:
 		return rapid.SliceOfN(rapid.Byte(), 0, 12).Draw(t, "val")
 	}
+}
+
+func c33SwapCase(c byte) byte {
+	switch {
+	case 'a' <= c && c <= 'z':
+		return c - 32
+	case 'A' <= c && c <= 'Z':
+		return c + 32
+	}
+	return c
 }
 
 func c33GenFields(t *rapid.T) []c33Field {
